@@ -104,6 +104,7 @@ type ObjectSpec struct {
 	Published []string // fields written once by the holder of a token before close(PubChan), read only after it is closed
 	PubChan  string   // channel field whose close publishes them
 	PubToken string   // owned ghost map: object -> invocation allowed to write
+	Via      map[string]string // sub-object type -> pointer field of that type naming the monitor object it belongs to
 	Owns     []string // pointer fields whose target objects are used only while this object's lock is held
 }
 
@@ -439,6 +440,19 @@ func ParseSpecFile(path, pkgPath string, ps *PkgSpec) error {
 			}
 			curO.Published = append(curO.Published, strings.Fields(strings.ReplaceAll(fs, ",", " "))...)
 			curO.PubChan, curO.PubToken = strings.TrimSpace(ch), strings.TrimSpace(tok)
+		case "records":
+			// records <Type> via <field>: the guarded fields of <Type> objects belong to the monitor their <field> points to
+			if curO == nil {
+				return fail(l.n, "records outside object block")
+			}
+			tn, fld, ok := strings.Cut(rest, " via ")
+			if !ok {
+				return fail(l.n, "expected: records <Type> via <field>")
+			}
+			if curO.Via == nil {
+				curO.Via = map[string]string{}
+			}
+			curO.Via[strings.TrimSpace(tn)] = strings.TrimSpace(fld)
 		case "owns":
 			if curO == nil {
 				return fail(l.n, "owns outside object block")
